@@ -1,6 +1,7 @@
 import Driver.Util
 import Driver.StorageCodec
 import Hv.Storage.Writer
+import Hv.Storage.ChronWrite
 
 /-! Driver for domain C01.
 
@@ -23,6 +24,10 @@ structure DS where
   accRev : List Entry := []
   /-- chronicler mode: configured, file not created yet (the writer is opened lazily) -/
   chronLazy : Bool := false
+  /-- chronicler mode: everything `Write` was handed (what its caller believes stored), newest first -/
+  ackRev : List Entry := []
+  /-- chronicler mode: treasures the writer refused and `Write` only logged -/
+  chronDropped : Nat := 0
 
 def triArg (kv : List (String × String)) (k : String) (dflt : Bool) : Bool :=
   match arg kv k with
@@ -41,6 +46,9 @@ def cfgOfArgs (kv : List (String × String)) : Cfg :=
     boundsCompressedSize := triArg kv "boundsCompressedSize" false
     boundsDecodedLen := triArg kv "boundsDecodedLen" false
     parseConsumesAll := triArg kv "parseConsumesAll" false
+    shortPayloadIsEOF := triArg kv "shortPayloadIsEOF" false
+    chronSurfacesError := triArg kv "chronSurfacesError" false
+    openCutsTornTail := triArg kv "openCutsTornTail" false
     v2Fallback := triArg kv "v2Fallback" true
     rejectsLongName := triArg kv "rejectsLongName" false }
 
@@ -132,17 +140,33 @@ def specFlag (d : DS) (r : Except Err (Index × Bytes)) : String :=
   if good then "" else
     s!"\t#F:{causeOf d (parseFile d.cfg idCodec.toDecoder crc0 d.st.file)}"
 
-/-- `chroniclerV2.Write` of one treasure: `ensureWriter` (create on first use, reopen after a
-    `Close`), then `WriteEntry`; an error is logged and the entry dropped -/
-def chronWrite (d : DS) (e : Entry) : DS :=
+/-- `chroniclerV2.Write` of a batch: `ensureWriter` (create on first use, reopen after a `Close`),
+    then the model's `chronWrite` -/
+def chronWriteBatch (d : DS) (batch : List Treasure) : DS :=
   let d1 : DS :=
     if d.chronLazy then
       match createFileCfg d.cfg d.name 0 with
       | none => d
       | some st => { d with st := st, fileExists := true, chronLazy := false }
-    else if d.st.sess.isNone && d.fileExists then (doOp d .reopen).1
     else d
-  (doOp d1 (.write e)).1
+  if !d1.fileExists then d1 else
+  let es := batch.map entryOf
+  let st' := Hv.Storage.chronWrite d1.cfg idCodec crc0 d1.bs d1.st batch
+  let ok := es.filter (accepts d1.cfg)
+  { d1 with st := st', accRev := ok.reverse ++ d1.accRev, ackRev := es.reverse ++ d1.ackRev,
+            chronDropped := d1.chronDropped + (es.length - ok.length) }
+
+def parseItem (s : String) : Option Treasure :=
+  match s.splitOn "|" with
+  | [k, key, v] =>
+    match parseSpec key, parseSpec v with
+    | some key, some v =>
+      if k == "i" then some ⟨key, v, false, false⟩
+      else if k == "u" then some ⟨key, v, false, true⟩
+      else if k == "d" then some ⟨key, [], true, false⟩
+      else none
+    | _, _ => none
+  | _ => none
 
 def step (d : DS) (line : String) : DS × String :=
   match line.splitOn " " with
@@ -178,11 +202,15 @@ def step (d : DS) (line : String) : DS × String :=
     | _, _ => (d, "bad-op")
   | ["cw", k, v] =>
     match parseSpec k, parseSpec v with
-    | some k, some v => (chronWrite d ⟨opInsert, k, v⟩, "ok")
+    | some k, some v => (chronWriteBatch d [⟨k, v, false, false⟩], "ok")
     | _, _ => (d, "bad-op")
   | ["cd", k] =>
     match parseSpec k with
-    | some k => (chronWrite d ⟨opDelete, k, []⟩, "ok")
+    | some k => (chronWriteBatch d [⟨k, [], true, false⟩], "ok")
+    | none => (d, "bad-op")
+  | ["cwb", items] =>
+    match (items.splitOn ";").mapM parseItem with
+    | some batch => (chronWriteBatch d batch, "ok")
     | none => (d, "bad-op")
   | ["cclose"] => let (d', _) := doOp d .close; (d', "ok")
   | ["cload"] =>
@@ -191,7 +219,51 @@ def step (d : DS) (line : String) : DS × String :=
     let line := match r with
       | .error e => s!"cidx err:{e.name}"
       | .ok (m, _) => s!"cidx {indexDigest m}{indexListing m}"
-    (d, line ++ specFlag d r)
+    -- the caller of `Write` was told nothing: it believes every treasure stored
+    let believed := specOf d.ackRev.reverse
+    let good := match r with
+      | .error _ => false
+      | .ok (m, _) => indexDigest m == indexDigest believed
+    let flag :=
+      if good then ""
+      else if d.chronDropped > 0 && !d.cfg.chronSurfacesError && (specFlag d r).isEmpty then "\t#F:C01-chronicler-drops-refused-entry"
+      else specFlag d r
+    (d, line ++ flag)
+  | ["wb", n, kl, dl, st] =>
+    match n.toNat?, kl.toNat?, dl.toNat?, st.toNat? with
+    | some n, some kl, some dl, some st =>
+      -- `WriteEntries`: validate the whole batch first, then add entry by entry (flushing as needed)
+      if d.st.sess.isNone then (d, "rej closed") else
+      let es := (List.range n).map fun i => (⟨1, genBytes kl (st + i), genBytes dl (st + i)⟩ : Entry)
+      match es.find? (fun e => !accepts d.cfg e) with
+      | some e => (d, if e.key.isEmpty then "rej emptykey" else "rej longkey")
+      | none => (es.foldl (fun d e => (doOp d (.write e)).1) d, "ok")
+    | _, _, _, _ => (d, "bad-op")
+  | ["wk", n, dl, st] =>
+    match n.toNat?, dl.toNat?, st.toNat? with
+    | some n, some dl, some st =>
+      let (d', okc, last) := (List.range n).foldl (fun (acc : DS × Nat × String) i =>
+        let (d, okc, last) := acc
+        let (d', r) := doOp d (.write ⟨1, le 4 (st + i), genBytes dl (st + i)⟩)
+        if r == .ok then (d', okc + 1, last) else (d', okc, replyStr r)) (d, 0, "ok")
+      (d', if okc == n then "ok" else s!"{last} after={okc}")
+    | _, _, _ => (d, "bad-op")
+  | ["stalehdr"] =>
+    if d.st.sess.isSome then (d, "rej open")
+    else if !d.fileExists then (d, "rej header")
+    else ({ d with st := zeroCounts d.st }, "ok")
+  | ["compact"] =>
+    if d.st.sess.isSome then (d, "rej open")
+    else if !d.fileExists then (d, "rej header")
+    else
+      let live := specOf (flushedOf d)
+      let (st', r) := compactSt d.cfg idCodec crc0 d.bs 0 d.st
+      match r with
+      | .ok =>
+        -- the Spec state is unchanged; restart the acknowledged history from the live set so that
+        -- header counters and history length stay comparable
+        ({ d with st := st', accRev := live.map (fun p => (⟨opInsert, p.1, p.2⟩ : Entry)) }, "ok")
+      | _ => (d, "rej header")
   | ["flush"] => let (d', r) := doOp d .flush; (d', replyStr r)
   | ["sync"] => let (d', r) := doOp d .sync; (d', replyStr r)
   | ["close"] => let (d', r) := doOp d .close; (d', replyStr r)
